@@ -163,6 +163,15 @@ class Crate:
             c = self.impl_index.get((ty, None, meth))
             if c and len(c) == 1:
                 return c[0]
+            if c and len(c) > 1:
+                mod = "::".join(parts[:-2])
+                best = []
+                for b in c:
+                    pre = b.name.split("<impl at")[0].rstrip(":")
+                    if mod and (mod.endswith(pre) or pre.endswith(mod)):
+                        best.append(b)
+                if len(best) == 1:
+                    return best[0]
             # trait method called through the type path
             cands = [bs for (t2, tr, m2), bs in self.impl_index.items() if t2 == ty and m2 == meth]
             if len(cands) == 1 and len(cands[0]) == 1:
@@ -172,6 +181,21 @@ class Crate:
         if len(hits) == 1:
             return hits[0]
         return None
+
+    def method(self, ty, name, trait=None):
+        """body of `impl [trait for] ty { fn name }` located through the impl headers in the source"""
+        if not hasattr(self, "impl_index"):
+            self.build_impl_index()
+        c = self.impl_index.get((ty, trait, name))
+        if not c or len(c) != 1:
+            raise Unsupported("method lookup %s::%s (trait %s): %d hits" % (ty, name, trait, len(c or [])))
+        return c[0]
+
+    def closure0(self, body):
+        b = self.bodies.get(body.name + "::{closure#0}")
+        if b is None:
+            raise Unsupported("no {closure#0} for " + body.name[-60:])
+        return b
 
     def field_index(self, struct, field):
         fs = self.structs.get(struct)
@@ -343,6 +367,9 @@ DEFAULT_HAVOC = [
     r"^alloc::fmt::format$", r"^std::fmt::format$", r"^alloc::fmt::format::format_inner$",
     r"^<.* as traits::FilterTrait<K>>::add$", r"^<.* as FilterTrait<.*>>::add$",
     r"^error::Error::", r"^Error::",
+    r"^(bytes::)?(BytesMut|Bytes)::", r"^bytes::", r"^bincode::", r"^<.* as (bytes::)?(BufMut|Buf)>::",
+    r"^<(bytes::)?(BytesMut|Bytes) as .*>::", r"^(bincode::)?(serialize|serialize_into|serialized_size|deserialize)$",
+    r"^std::time::", r"^SystemTime::", r"^(tokio::time::)?Instant::", r"^Duration::",
 ]
 
 
@@ -359,7 +386,7 @@ def mk_executor(crate, cap=8, loop_bound=12, inline=None, extra_summaries=None, 
     inline_rx = [re.compile(x) for x in (inline or [])]
     havoc_rx = [re.compile(x) for x in DEFAULT_HAVOC + (havoc or [])]
     ex = Executor(crate.bodies, enums=crate.enums, cap=cap, loop_bound=loop_bound,
-                  inline=lambda body: any(r.search(canon_name(body)) for r in inline_rx),
+                  inline=lambda body: any(r.search(canon_name(body)) or r.search(re.sub(r'(::\{closure#\d+\})+$', '', canon_name(body))) for r in inline_rx),
                   summaries=S.compile_summaries((extra_summaries or []) + PEARL_SUMMARIES + IT.ITER_SUMMARIES),
                   havoc=lambda name: any(r.search(name) for r in havoc_rx),
                   max_paths=max_paths)
@@ -464,3 +491,42 @@ def poll_payload(ex, st, poll_val):
     d = ex.get_discr(st, poll_val).t
     payload = poll_val.fields.get(("Ready", 0))
     return d == BV64(0), payload
+
+
+def drive_async(ex, st, fn_body, args):
+    """Call an `async fn` / async_trait method wrapper with args and poll the resulting future to completion
+    (every callee future is Ready at its first poll unless ex.await_hook says otherwise).  Returns terminal states;
+    state.result is the Poll value."""
+    ex.push_frame(st, fn_body, args, None, None)
+    outs0 = [o for o in ex.run(st) if o.status == "returned"]
+    if len(outs0) != 1:
+        raise Unsupported("async wrapper %s did not return a single future" % fn_body.name[-50:])
+    s1 = outs0[0]
+    s1.status = "running"
+    futv = s1.result
+    cell = s1.new_cell(futv)
+    fut, where = S.find_future(ex, s1, Ref(cell, (), True, "&mut ?"))
+    body = S.coroutine_body(ex, fut.ty, fut)
+    if body is None:
+        raise Unsupported("no coroutine body for " + fut.ty[:80])
+    MP.parse_body(body)
+    pin = Obj(body.args[0][1])
+    pin.fields[(None, 0)] = where
+    cx = Obj("&mut std::task::Context<'_>")
+    ex.push_frame(s1, body, [pin, cx], None, None)
+    return ex.run(s1)
+
+
+def events_of(st, kinds=("await", "call")):
+    return [e for e in st.events if e[0] in kinds]
+
+
+def ev_names(st):
+    return [e[1] for e in st.events if e[0] in ("await", "call")]
+
+
+def result_of(ex, st):
+    """(is_ok term, ok payload or None) of a returned Poll<Result<..>>"""
+    ready, payload = poll_payload(ex, st, st.result)
+    d = ex.get_discr(st, payload).t
+    return ready, d == BV64(0), payload
